@@ -14,3 +14,5 @@ import GoMC.Props.C10
 #print axioms GoMC.Props.C10.C10_conn_transparent
 #print axioms GoMC.Props.C10.C10_switch_transparent
 #print axioms GoMC.Props.C10.C10_switch_readahead_loses
+#print axioms GoMC.Props.C10.C10_hist_delivered
+#print axioms GoMC.Props.C10.C10_hist_independent
